@@ -83,7 +83,7 @@ def setup(ctx):
     ctx.opens = []
 
     def hook(event, args):
-        if event == "open" and ctx.opens is not None and isinstance(args[0], str) and args[0].endswith("c16.tsv"):
+        if event == "open" and ctx.opens is not None and isinstance(args[0], str) and "c16" in args[0]:
             ctx.opens.append((args[1], probe.S.counters["bulk:scalar-calls-seen"]))
 
     sys.addaudithook(hook)
@@ -187,7 +187,8 @@ def run_case(ctx, g, rng):
                        hostile or bool(feats))
         S.counters[f"wl:{meth}:{o[0]}"] += 1
     # ---- files -----------------------------------------------------------------
-    path = ctx.tmp / "c16.tsv"
+    # (the name of the table is the caller's: common and less common suffixes, none, a leading dot, a trailing tilde)
+    path = ctx.tmp / rng.choice(["c16.tsv", "c16.tsv", "c16.tmp", "c16.tsv.tmp", "c16.bak", "c16", ".c16.tsv", "c16.tsv~", "c16.csv.new", "c16.swp"])
     sep = rng.choice(SEPS)
     header = rng.random() < 0.6
     head = [rng.choice(["h", "uri", "", "h\nx", "a b"]) + str(j) for j in range(ncols)] if header else None
